@@ -96,14 +96,20 @@ def digitSegs : List Char → Bool → Bool
   | [], ne => ne
   | c :: cs, ne => if c == '_' then ne && digitSegs cs false else c.isDigit && digitSegs cs true
 
-/-- a node of the tree `node`: the name itself, or the name followed by `_<digits>` segments -/
-def inTree (node name : String) : Bool :=
+/-- number of `_`-separated segments of a string given by its characters -/
+def segCount (cs : List Char) : Nat := (cs.filter (· == '_')).length + 1
+
+/-- a node of the tree `node` that can sit on level `lvl`: the name itself, or the name followed by at most
+    `lvl + 1` segments `_<digits>` -/
+def inTree (node : String) (lvl : Int) (name : String) : Bool :=
   name == node ||
-    ((node ++ "_").toList.isPrefixOf name.toList && digitSegs (name.toList.drop (node ++ "_").toList.length) false)
+    ((node ++ "_").toList.isPrefixOf name.toList &&
+      (decide ((segCount (name.toList.drop (node ++ "_").toList.length) : Int) ≤ lvl + 1) &&
+        digitSegs (name.toList.drop (node ++ "_").toList.length) false))
 
 def nodesFromLvl (g : Graph) (node : String) (lvl : Int) : D (List String) :=
   -- two chained filters: a node of the tree, then `nodes[n].get("lvl") == lvl`
-  pure (((g.nodes.filter fun n => inTree node n.name).filter
+  pure (((g.nodes.filter fun n => inTree node lvl n.name).filter
     fun n => n.lvl.map (fun (l : Nat) => (l : Int)) == some lvl).map (·.name))
 
 /-! ### constructors -/
